@@ -61,6 +61,7 @@ type ProcSpec struct {
 	UseEntry    bool   `json:"use_entry,omitempty"` // use entrypoint: [simproc, token] instead of command
 	CmdTail     string `json:"cmd_tail,omitempty"`  // appended to the command line after the token (C17: $VAR forms)
 	RawYAML     string `json:"raw_yaml,omitempty"`  // lines written verbatim into the process's body
+	Exe         string `json:"exe,omitempty"`       // with UseEntry: the executable ("simproc" or its alias "simprocB")
 }
 
 type ProjectSpec struct {
@@ -237,7 +238,11 @@ func (p *ProjectSpec) Render(tmp string) string {
 		fmt.Fprintf(&b, "  %s:\n", pr.Name)
 		b.WriteString(pr.RawYAML)
 		if pr.UseEntry {
-			fmt.Fprintf(&b, "    entrypoint: [\"simproc\", %s]\n", q(pr.Token))
+			exe := pr.Exe
+			if exe == "" {
+				exe = "simproc"
+			}
+			fmt.Fprintf(&b, "    entrypoint: [%s, %s]\n", q(exe), q(pr.Token))
 		} else {
 			cmd := "simproc " + pr.Token
 			if pr.CmdTail != "" {
